@@ -102,6 +102,9 @@ partial def loop (h : IO.FS.Stream) (c : Case) : IO Unit := do
     pr "setDead" Dead
     pr "setPartial" PartialField
     pr "setPersistent" Persistent
+    -- poison sets: scalar (non-pointer) members only
+    pr "setLoadPoison" (fun f => LoadResets f && f.kind != .ptr)
+    pr "setStartPoison" (fun f => StartResets f && f.kind != .ptr)
     loop h c
   | _ => loop h c
 
